@@ -639,7 +639,9 @@ def uf_family(run, r, n):
         rhss = [true, false, A_, B_, C_, nA, nB, Not(C_), And(A_, B_), Or(A_, B_), Implies(A_, B_), Implies(B_, A_), Eq(A_, B_), And(nA, nB), Or(nA, nB),
                 And(A_, nB), Or(nA, B_), Implies(And(A_, B_), C_), Or(A_, C_), And(A_, C_), Or(nA, C_), And(nA, C_), Or(A_, B_, C_), And(A_, B_, C_),
                 And(Implies(A_, B_), Implies(B_, A_)), And(Implies(A_, B_), Implies(nA, C_)), Or(And(nA, B_), And(A_, nB)), logic.mk_if(A_, C_, B_),
-                logic.mk_if(A_, B_, C_), And(B_, A_), Or(B_, A_)]
+                logic.mk_if(A_, B_, C_), And(B_, A_), Or(B_, A_), And(Implies(A_, B_), Implies(C_, A_)), And(Implies(A_, B_), Implies(nB, A_)),
+                And(Implies(A_, B_), Implies(B_, C_)), And(Implies(A_, C_), Implies(B_, A_)), And(Implies(A_, B_), Implies(nA, B_)),
+                And(Implies(A_, B_), Implies(A_, C_)), And(Implies(nA, B_), Implies(A_, C_))]
         for rule in bool_rules:
             for lhs in shapes:
                 for rhs in rhss:
